@@ -14,6 +14,7 @@ import (
 	"net/http/httptest"
 	"os"
 	"path/filepath"
+	"time"
 
 	"github.com/tailscale/setec/client/setec"
 	"github.com/tailscale/setec/types/api"
@@ -29,7 +30,7 @@ type probeSpec struct {
 }
 
 type c09Input struct {
-	Kind  string      `json:"kind"` // hist | probes
+	Kind  string      `json:"kind"` // hist | probes | race
 	Hist  *DBInput    `json:"hist,omitempty"`
 	Setup []DBStep    `json:"setup,omitempty"`
 	Ops   []probeSpec `json:"ops,omitempty"`
@@ -75,6 +76,82 @@ var c09Callers = []DBCaller{
 	{ID: 3, Rules: []c07Rule{{Actions: []string{"info", "put"}, Secrets: [][]byte{[]byte("*")}}}},
 }
 
+// runRace: a conditional get that has to deliver a value (its version argument is an existing,
+// non-active version), while - at the moment its audit record reaches the sink, i.e. in the middle
+// of the call - another goroutine tries to activate exactly that version.  The pinned code holds the
+// database lock at that point, so the activate waits; whatever the code does, the answer must be the
+// one the model gives before or after the activate ("at that moment").
+func runRace(work string, idx int, in c09Input) Record {
+	env, err := newDBEnv(filepath.Join(work, fmt.Sprintf("c09r-%d", idx%32)))
+	if err != nil {
+		return Record{Kind: "race", Input: in, Key: fmt.Sprintf("failed-%d", idx), Direct: &DirectVerdict{OK: false, What: err.Error()}}
+	}
+	defer env.close()
+	for _, st := range in.Setup {
+		env.exec(c09Callers, st)
+	}
+	var pre stepObs
+	env.observeState(&pre)
+	p := in.Ops[0]
+	done := make(chan struct{})
+	env.sink.mu.Lock()
+	env.sink.hook = func() {
+		go func() {
+			env.d.Activate(env.super, string(p.Name), api.SecretVersion(p.Old))
+			close(done)
+		}()
+		select {
+		case <-done:
+		case <-time.After(40 * time.Millisecond):
+		}
+	}
+	env.sink.mu.Unlock()
+	sv, gerr := env.d.GetConditional(env.super, string(p.Name), api.SecretVersion(p.Old))
+	env.sink.mu.Lock()
+	fired := env.sink.hook == nil
+	env.sink.hook = nil
+	env.sink.mu.Unlock()
+	if fired {
+		<-done
+	}
+	res := classifyClient(sv, gerr)
+	kb, _ := json.Marshal(in)
+	return Record{Kind: "race", Input: in, Obs: map[string]any{"result": res, "hook_fired": fired}, Key: string(kb),
+		Nontrivial: fired, Tags: []string{"race:" + res.Class},
+		Coq: fmt.Sprintf("C9Race %s %s %d %s", coqDisk(pre.Disk), coqBytes(p.Name), p.Old, coqRaceRes(res))}
+}
+
+func coqRaceRes(c cresObs) string {
+	switch c.Class {
+	case "val":
+		return fmt.Sprintf("(RVal %d %d)", c.Ver, c.Val)
+	case "notchanged":
+		return "RNotChanged"
+	case "notfound":
+		return "RNotFound"
+	case "denied":
+		return "RDenied"
+	}
+	return "ROther"
+}
+
+func genRace(r *rand.Rand) c09Input {
+	in := c09Input{Kind: "race"}
+	name := [][]byte{[]byte("a"), []byte("b")}[r.IntN(2)]
+	nv := 2 + r.IntN(3)
+	for v := 1; v <= nv; v++ {
+		in.Setup = append(in.Setup, DBStep{Kind: "put", Name: name, Val: v})
+	}
+	act := 1 + r.IntN(nv)
+	in.Setup = append(in.Setup, DBStep{Kind: "activate", Name: name, Ver: uint32(act)})
+	old := 1 + r.IntN(nv)
+	for old == act {
+		old = 1 + r.IntN(nv)
+	}
+	in.Ops = []probeSpec{{Kind: "race", Name: name, Old: uint32(old)}}
+	return in
+}
+
 func runProbes(work string, idx int, in c09Input) Record {
 	hs, err := newHTTPSession(filepath.Join(work, fmt.Sprintf("c09-%d", idx%32)))
 	if err != nil {
@@ -96,6 +173,12 @@ func runProbes(work string, idx int, in c09Input) Record {
 			}
 		}
 	}
+	// entries a FileClient must ignore (no usable version or no value): they are not secrets, so every
+	// probe of these names is answered "not found" - also a conditional one carrying version 0
+	fcDoc["z0"] = map[string]any{"secret": map[string]any{"Value": valueBytes(3), "Version": 0}}
+	fcDoc["z1"] = map[string]any{"secret": map[string]any{"TextValue": "text without a version"}}
+	fcDoc["z2"] = map[string]any{"secret": map[string]any{"Version": 3}}
+	fcDoc["z3"] = map[string]any{"secret": nil}
 	fcPath := filepath.Join(hs.env.dir, "fileclient.json")
 	fb, _ := json.Marshal(fcDoc)
 	os.WriteFile(fcPath, fb, 0600)
@@ -169,6 +252,10 @@ func genProbes(r *rand.Rand) c09Input {
 		p.Old = uint32(r.IntN(nver[string(n)] + 3)) // current, older, newer, never-existing, 0
 		in.Ops = append(in.Ops, p)
 	}
+	for k := 2; k > 0; k-- { // the unusable file entries
+		z := []byte(fmt.Sprintf("z%d", r.IntN(4)))
+		in.Ops = append(in.Ops, probeSpec{Kind: []string{"file", "fileget"}[r.IntN(2)], Name: z, Old: uint32([]int{0, 0, 1, 3}[r.IntN(4)])})
+	}
 	return in
 }
 
@@ -189,6 +276,8 @@ func runC09(o Opts) {
 		for _, in := range readInputs[c09Input](o.Replay) {
 			if in.Kind == "hist" {
 				out.Emit(wrapHist(runDBHistory(work, idx, profC09, *in.Hist, nil, 0)))
+			} else if in.Kind == "race" {
+				out.Emit(runRace(work, idx, in))
 			} else {
 				out.Emit(runProbes(work, idx, in))
 			}
@@ -200,6 +289,8 @@ func runC09(o Opts) {
 		var rec Record
 		if in.Kind == "hist" {
 			rec = wrapHist(runDBHistory(work, idx, profC09, *in.Hist, nil, 0))
+		} else if in.Kind == "race" {
+			rec = runRace(work, idx, in)
 		} else {
 			rec = runProbes(work, idx, in)
 		}
@@ -244,6 +335,23 @@ func runC09(o Opts) {
 			c.Coq = string(bytes.Replace([]byte(rec.Coq), []byte("CNotChanged"), []byte("CNotFound"), 1))
 			c.SelfTest, c.SelfOf, c.Obs = true, rec.ID, nil
 			selfP = &c
+		}
+	}
+	nr := 25
+	if o.Tier == "thorough" {
+		nr = 400
+	}
+	for i := 0; i < nr; i++ {
+		rec := runRace(work, idx, genRace(NewRand(o.Seed, uint64(9900000+i))))
+		rec.ID = out.n
+		out.Emit(rec)
+		idx++
+		if i == 3 { // self-test: an answer carrying the very version the caller already has
+			c := rec
+			in := rec.Input.(c09Input)
+			c.Coq = string(bytes.Replace([]byte(rec.Coq), []byte(fmt.Sprintf(" %d (RVal ", in.Ops[0].Old)), []byte(fmt.Sprintf(" %d (RVal 9", in.Ops[0].Old)), 1))
+			c.SelfTest, c.SelfOf, c.Obs = true, rec.ID, nil
+			out.Emit(c)
 		}
 	}
 	if selfH != nil {
